@@ -1267,6 +1267,177 @@ func (g *gen) genC03(scale int, only map[string]bool) {
 
 func itoa(i int) string { return strconv.Itoa(i) }
 
+// Values that compare equal (or are "special") under the host language but differ in bits or class:
+// +0/-0, denormals next to zeros, NaNs with different payloads and signs, signalling NaNs, equal values
+// followed by a different one, values differing in one ulp, infinities.  Consecutive elements of the
+// sequences are placed in consecutive *active* lanes, in both orders.
+const (
+	pz, nz, pd, nd = 0x00000000, 0x80000000, 0x00000001, 0x80000001
+	qa, qb, qn, sn = 0x7fc00000, 0x7fc00001, 0xffc00000, 0x7f800001
+)
+
+var nbrSeq32 = []uint32{
+	pz, nz, pz, pd, pz, nd, nz, pd, nz, nd, pd, nd, pz, // zeros and denormals, every ordered pair
+	qa, qb, qa, qn, qa, sn, qb, qn, qb, sn, qn, sn, qa, // NaNs
+	0x3f800000, 0x3f800000, 0x3f800000, 0xbf800000, 0xbf800000, 0x3f800000, // runs of equal values, then a change
+	0x40800000, 0x40800000, 0x40800001, 0x40800000, 0x7f800000, 0x7f800000, 0xff800000, 0xff800000, 0x7f800000,
+	nz, nz, pz, pz, nz, 0x80000000, 0x00000000, 0xffffffff, 0xffffffff, 0x7fffffff, 0x80000000, 0x00010000, 0x00000001,
+}
+
+func f64of(v uint32) uint64 {
+	switch v {
+	case pz, nz:
+		return uint64(v) << 32
+	case pd, nd:
+		return uint64(v&0x80000000)<<32 | 1
+	case qa:
+		return 0x7ff8000000000000
+	case qb:
+		return 0x7ff8000000000001
+	case qn:
+		return 0xfff8000000000000
+	case sn:
+		return 0x7ff0000000000001
+	case 0x40800001:
+		return 0x4010000000000001
+	case 0xffffffff:
+		return 0x00000001ffffffff // equal low dwords, different high dwords
+	case 0x7fffffff:
+		return 0x00000000ffffffff
+	case 0x00010000:
+		return 0x0000000100000000
+	}
+	return math.Float64bits(float64(math.Float32frombits(v)))
+}
+
+// genNbr: for every value-carrying source operand one record whose operand walks through nbrSeq32 over the
+// active lanes (the other operands constant, the old destination uniform) - once with every lane active, once
+// with inactive lanes in between (those hold the confusable partner) - and records with random runs of
+// repeated values; each followed by its lane-permuted twin.
+func (g *gen) genNbr(arch string, d opDef, scale int) {
+	emit := func(c *Case) {
+		c.Tag = "nbr"
+		g.cases = append(g.cases, c)
+		perm := g.r.Perm(nLane)
+		t := permuteCase(c, perm, g.nextID)
+		g.nextID++
+		g.cases = append(g.cases, t)
+	}
+	ws := []int{d.aw, d.bw, d.cw}
+	slots := []int{2, 4, 6}
+	cnt := 0
+	base := func() *Case {
+		st := "emu"
+		if cnt%4 == 3 {
+			st = "timing"
+		}
+		cnt++
+		c := g.genVector(arch, st, d, plan{rk: -1, kind: [3]int{0, 0, 0}})
+		// uniform old destination and carry-in: lanes with equal sources have equal inputs
+		if dl, ok := c.Ops["d"]; ok && dl.C >= 256 {
+			for i := 0; i < dl.N; i++ {
+				v := g.r.Uint32()
+				u := make([]uint64, nLane)
+				for l := range u {
+					u[l] = uint64(v)
+				}
+				g.setV(c, dl.C-256+i, 32, u)
+			}
+		}
+		c.VCC = []uint64{0, ^uint64(0)}[g.r.Intn(2)]
+		for _, key := range []string{"s0", "s1", "s2"} {
+			if l, ok := c.Ops[key]; ok && l.C <= 101 && l.N == 2 && c.Fld["mask_"+key] == 1 {
+				c.S[l.C], c.S[l.C+1] = uint32(c.VCC), uint32(c.VCC>>32)
+			}
+		}
+		return c
+	}
+	constant := func(c *Case, i int) {
+		if l, ok := c.Ops[[]string{"s0", "s1", "s2"}[i]]; ok && l.C >= 256 {
+			v := val(g.r, ws[i], vtAt(d, i), -1)
+			u := make([]uint64, nLane)
+			for k := range u {
+				u[k] = v
+			}
+			g.setV(c, slots[i], ws[i], u)
+		}
+	}
+	seqVal := func(i, k int) uint64 {
+		v := nbrSeq32[k%len(nbrSeq32)]
+		if ws[i] == 64 {
+			return f64of(v)
+		}
+		return uint64(v)
+	}
+	for i := 0; i < 3; i++ {
+		key := []string{"s0", "s1", "s2"}[i]
+		if ws[i] == 0 || vtAt(d, i) == 'm' || vtAt(d, i) == 't' {
+			continue
+		}
+		if i == 2 && has(d.flag, "litk") {
+			continue
+		}
+		for variant := 0; variant < 2; variant++ {
+			c := base()
+			if l, ok := c.Ops[key]; !ok || l.C < 256 {
+				continue
+			}
+			for j := 0; j < 3; j++ {
+				if j != i && ws[j] > 0 && vtAt(d, j) != 'm' {
+					constant(c, j)
+				}
+			}
+			vals := make([]uint64, nLane)
+			if variant == 0 {
+				c.EXEC = ^uint64(0)
+				for l := 0; l < nLane; l++ {
+					vals[l] = seqVal(i, l)
+				}
+			} else {
+				// active lanes every second or third lane; the inactive ones hold the next element (a tempting neighbour)
+				c.EXEC = 0
+				k := 13 * (cnt % 3)
+				for l := 0; l < nLane; l++ {
+					if l%2 == 0 || l%7 == 3 {
+						c.EXEC |= 1 << uint(l)
+						vals[l] = seqVal(i, k)
+						k++
+					} else {
+						vals[l] = seqVal(i, k)
+					}
+				}
+			}
+			g.setV(c, slots[i], ws[i], vals)
+			emit(c)
+		}
+	}
+	// random runs of repeated values, every operand with its own run boundaries
+	for r := 0; r < scale; r++ {
+		c := base()
+		c.EXEC = g.r.Uint64() | g.r.Uint64()
+		for i := 0; i < 3; i++ {
+			key := []string{"s0", "s1", "s2"}[i]
+			l, ok := c.Ops[key]
+			if !ok || l.C < 256 || ws[i] == 0 || vtAt(d, i) == 'm' || vtAt(d, i) == 't' || (i == 2 && has(d.flag, "litk")) {
+				continue
+			}
+			vals := make([]uint64, nLane)
+			for ln := 0; ln < nLane; {
+				run := 1 + g.r.Intn(4)
+				v := seqVal(i, g.r.Intn(len(nbrSeq32)))
+				if g.r.Intn(4) == 0 {
+					v = val(g.r, ws[i], vtAt(d, i), -1)
+				}
+				for ; run > 0 && ln < nLane; run, ln = run-1, ln+1 {
+					vals[ln] = v
+				}
+			}
+			g.setV(c, slots[i], ws[i], vals)
+		}
+		emit(c)
+	}
+}
+
 // genC06: for every vector handler (with or without a reference) pairs of a
 // state with a partial EXEC mask and its lane-permuted twin.
 func (g *gen) genC06(scale int, only map[string]bool) {
@@ -1314,6 +1485,10 @@ func (g *gen) genC06(scale int, only map[string]bool) {
 				t := permuteCase(c, perm, g.nextID)
 				g.nextID++
 				g.cases = append(g.cases, t)
+			}
+			// neighbouring lanes with confusable values (see genNbr): targets state carried from lane to lane
+			if d.f != "DS" && d.f != "FLAT" && d.tmpl != "vop1s" {
+				g.genNbr(arch, d, scale)
 			}
 			// lanes 2j and 2j+1 carry identical inputs: their results must be identical
 			if d.f != "DS" && d.f != "FLAT" {
